@@ -10,6 +10,7 @@
 package proposal
 
 //@ import configapi "github.com/onosproject/onos-api/go/onos/config/v2"
+//@ import errors "github.com/onosproject/onos-lib-go/pkg/errors"
 
 // Ghost snapshot of the proposal as read: phase states (-1 when the phase does not exist yet),
 // links and the immutable details.
@@ -30,6 +31,17 @@ package proposal
 //@ ghost proposalStatusWrites int
 //@ ghost proposalCreates int
 //@ ghost lastProposalGetOK bool
+// which proposals this step has read, and in which state it found them
+//@ ghost seenValidated map[string]bool
+//@ ghost seenInitialized map[string]bool
+//@ ghost seenCommitted map[string]bool
+//@ ghost seenApplied map[string]bool
+//@ ghost seenAborted map[string]bool
+// writes that start a new phase of a proposal
+//@ ghost propNewValidate int
+//@ ghost propNewCommit int
+//@ ghost propNewApply int
+//@ ghost propNewAbort int
 
 //@ spec initState(p *configapi.Proposal) int = ite(p.Status.Phases.Initialize == nil, 0 - 1, p.Status.Phases.Initialize.State)
 //@ spec validateState(p *configapi.Proposal) int = ite(p.Status.Phases.Validate == nil, 0 - 1, p.Status.Phases.Validate.State)
@@ -44,16 +56,24 @@ package proposal
 
 //@ spec proposalWellFormed(p *configapi.Proposal) bool = p.Details != nil && (isType(p.Details, "*configapi.Proposal_Change") ==> asType(p.Details, "*configapi.Proposal_Change") != nil && asType(p.Details, "*configapi.Proposal_Change").Change != nil) && (isType(p.Details, "*configapi.Proposal_Rollback") ==> asType(p.Details, "*configapi.Proposal_Rollback") != nil && asType(p.Details, "*configapi.Proposal_Rollback").Rollback != nil) && (isType(p.Details, "*configapi.Proposal_Change") || isType(p.Details, "*configapi.Proposal_Rollback"))
 
-//@ iface Store.Get(ctx, id) (result, err)
-//@   modifies lastProposalGetOK
-//@   ensures lastProposalGetOK == (err == nil)
-//@   ensures err != nil ==> result == nil
-//@   ensures err == nil ==> result != nil && fresh(result) && proposalSnapshotted(result) && proposalWellFormed(result)
+// What every stored proposal satisfies (record invariant; established by the guards below at every write).
+//@ spec statesInRange(p *configapi.Proposal) bool = (p.Status.Phases.Initialize != nil ==> 0 <= p.Status.Phases.Initialize.State && p.Status.Phases.Initialize.State <= 1) && (p.Status.Phases.Validate != nil ==> 0 <= p.Status.Phases.Validate.State && p.Status.Phases.Validate.State <= 2) && (p.Status.Phases.Commit != nil ==> 0 <= p.Status.Phases.Commit.State && p.Status.Phases.Commit.State <= 1) && (p.Status.Phases.Apply != nil ==> 0 <= p.Status.Phases.Apply.State && p.Status.Phases.Apply.State <= 2) && (p.Status.Phases.Abort != nil ==> 0 <= p.Status.Phases.Abort.State && p.Status.Phases.Abort.State <= 1)
+//@ spec proposalInv(p *configapi.Proposal) bool = statesInRange(p) && (validateState(p) == 2 ==> p.Status.Phases.Validate.Failure != nil) && (applyState(p) == 2 ==> p.Status.Phases.Apply.Failure != nil)
 
+//@ iface Store.Get(ctx, id) (result, err)
+//@   modifies lastProposalGetOK, seenValidated[id], seenInitialized[id], seenCommitted[id], seenApplied[id], seenAborted[id]
+//@   ensures lastProposalGetOK == (err == nil)
+//@   ensures seenInitialized[id] == (err == nil && initState(result) >= 1) && seenValidated[id] == (err == nil && validateState(result) == 1) && seenCommitted[id] == (err == nil && commitState(result) == 1) && seenApplied[id] == (err == nil && applyState(result) == 1) && seenAborted[id] == (err == nil && abortState(result) == 1)
+//@   ensures err == nil ==> result.ID == id
+//@   ensures err != nil ==> result == nil
+//@   ensures err == nil ==> result != nil && fresh(result) && proposalSnapshotted(result) && proposalWellFormed(result) && proposalInv(result)
+
+//@ ghost lastCreateExisted bool
 //@ iface Store.Create(ctx, proposal) (err)
 //@   requires proposal != nil
-//@   modifies proposal.ObjectMeta, proposalCreates
+//@   modifies proposal.ObjectMeta, proposalCreates, lastCreateExisted
 //@   ensures proposalCreates == old(proposalCreates) + 1
+//@   ensures lastCreateExisted == (err != nil && isKind(err, errors.AlreadyExists))
 
 //@ iface Store.UpdateStatus(ctx, proposal) (err)
 //@   requires proposal != nil
@@ -62,7 +82,12 @@ package proposal
 //@   guard {C02,C07} prop.links-set-once: (proposal.snapPrev != 0 ==> proposal.Status.PrevIndex == proposal.snapPrev) && (proposal.snapNext != 0 ==> proposal.Status.NextIndex == proposal.snapNext)
 //@   guard {C01,C07} prop.details-immutable: proposal.TransactionIndex == proposal.snapTxIndex && proposal.TargetID == proposal.snapTarget && typeTag(proposal.Details) == proposal.snapDetailsTag
 //@   guard {C06,C07} prop.rollback-values-only-with-validation: (proposal.Status.RollbackIndex != proposal.snapRollbackIndex || proposal.Status.RollbackValues != proposal.snapRollbackValues) ==> proposal.snapValidate == 0 && validateState(proposal) == 1
-//@   modifies proposal.ObjectMeta, proposal.tracked, proposal.snapInit, proposal.snapValidate, proposal.snapCommit, proposal.snapApply, proposal.snapAbort, proposal.snapPrev, proposal.snapNext, proposal.snapTxIndex, proposal.snapTarget, proposal.snapDetailsTag, proposal.snapRollbackIndex, proposal.snapRollbackValues, proposalStatusWrites
+//@   guard {C01,C08,C11} prop.failed-has-failure: proposalInv(proposal)
+//@   modifies propNewValidate, propNewCommit, propNewApply, propNewAbort, proposal.ObjectMeta, proposal.tracked, proposal.snapInit, proposal.snapValidate, proposal.snapCommit, proposal.snapApply, proposal.snapAbort, proposal.snapPrev, proposal.snapNext, proposal.snapTxIndex, proposal.snapTarget, proposal.snapDetailsTag, proposal.snapRollbackIndex, proposal.snapRollbackValues, proposalStatusWrites
 //@   ensures proposalStatusWrites == old(proposalStatusWrites) + 1
+//@   ensures propNewValidate == old(propNewValidate) + ite(old(proposal.snapValidate) == 0 - 1 && proposal.Status.Phases.Validate != nil, 1, 0)
+//@   ensures propNewCommit == old(propNewCommit) + ite(old(proposal.snapCommit) == 0 - 1 && proposal.Status.Phases.Commit != nil, 1, 0)
+//@   ensures propNewApply == old(propNewApply) + ite(old(proposal.snapApply) == 0 - 1 && proposal.Status.Phases.Apply != nil, 1, 0)
+//@   ensures propNewAbort == old(propNewAbort) + ite(old(proposal.snapAbort) == 0 - 1 && proposal.Status.Phases.Abort != nil, 1, 0)
 //@   ensures err == nil ==> proposalSnapshotted(proposal)
 //@   ensures err != nil ==> !proposal.tracked
